@@ -785,6 +785,35 @@ class SamplerConfig:
             primitive_params=dict(self.primitive_params),
         )
 
+    def with_lanes(self, n: int, in_axes: tuple) -> "SamplerConfig":
+        """Create a new config whose sampler is a lane-wise map of this one.
+
+        The mapped sampler splits its key into one key per lane and applies
+        the original sampler to each lane's slice of the parameters
+        (`in_axes` as in `jax.vmap`).  As for any batched parameter, the lane
+        axis follows `sample_shape` in the output.
+        """
+        keyful_sampler = self.keyful_sampler
+
+        def lanes_sampler(key, *args, sample_shape=(), **kwargs):
+            def one_lane(lane_key, *lane_args):
+                return keyful_sampler(
+                    lane_key, *lane_args, sample_shape=sample_shape, **kwargs
+                )
+
+            return jax.vmap(
+                one_lane, in_axes=(0, *in_axes), out_axes=len(sample_shape)
+            )(jrand.split(key, n), *args)
+
+        return SamplerConfig(
+            keyful_sampler=lanes_sampler,
+            name=self.name,
+            sample_shape=self.sample_shape,
+            support=self.support,
+            primitive=self.primitive,
+            primitive_params=dict(self.primitive_params),
+        )
+
     def get_keyful_sampler_with_shape(self) -> Callable[..., Any]:
         """Get the keyful sampler with sample_shape pre-applied."""
         return partial(self.keyful_sampler, sample_shape=self.sample_shape)
@@ -809,6 +838,13 @@ class KeylessWrapper:
             *args,
             **kwargs,
         )
+
+
+def _as_typed_key(key):
+    """Return `key` as a typed PRNG key (legacy raw `uint32` keys are wrapped)."""
+    if jnp.issubdtype(key.dtype, jax.dtypes.prng_key):
+        return key
+    return jrand.wrap_key_data(key)
 
 
 class FlatSamplerCache:
@@ -836,6 +872,9 @@ class FlatSamplerCache:
             jaxpr, *_ = stage(f)(*args, **kwargs)
 
             def flat(*flat_args, **params):
+                # Staged with a typed PRNG key; legacy uint32 keys are wrapped so
+                # that key operations inside the sampler accept them as well.
+                flat_args = (_as_typed_key(flat_args[0]), *flat_args[1:])
                 consts, args = split_list(flat_args, [params["num_consts"]])
                 return eval_jaxpr(jaxpr.jaxpr, consts, *args)
 
@@ -885,8 +924,18 @@ class VmapBatchHandler:
         vector_args = tuple(vector_args[1:])
         batch_axes = tuple(batch_axes[1:])
 
-        # Compute new sample shape
         n = static_dim_length(batch_axes, vector_args)
+        if n is not None:
+            # The lanes come from batched parameters.  Map the sampler itself
+            # over them so that each lane draws from its own parameters, in
+            # whatever layout JAX hands them over and whatever their per-lane
+            # ranks are (broadcasting batched arrays against each other pairs
+            # parameters of different lanes).
+            new_config = self.config.with_lanes(n, batch_axes)
+            result = create_sample_primitive(new_config)(*vector_args)
+            return (result,), (len(self.config.sample_shape),)
+
+        # No parameter is batched: draw one sample per lane via sample_shape.
         outer_batch_dim = self._compute_outer_batch_dim(n, axis_size)
         new_sample_shape = outer_batch_dim + self.config.sample_shape
 
@@ -895,7 +944,7 @@ class VmapBatchHandler:
         result = create_sample_primitive(new_config)(*vector_args)
 
         # Return with appropriate output axes
-        out_axes = (0 if n or axis_size else None,)
+        out_axes = (0 if axis_size else None,)
         return (result,), out_axes
 
     def _compute_outer_batch_dim(self, n, axis_size):
